@@ -1,6 +1,7 @@
 package model
 
 import (
+	"fmt"
 	"strings"
 
 	"verif/internal/ref/jsonv"
@@ -23,6 +24,7 @@ type Layout struct {
 	BreakColon    bool   `json:"break_colon,omitempty"`    // with Annot 2: also break between a rule name's colon and its value
 	LineIndent    int    `json:"line_indent,omitempty"`    // extra blanks at line starts (0..3)
 	LineTail      int    `json:"line_tail,omitempty"`      // extra blanks at line ends (0..2)
+	Esc           int    `json:"esc,omitempty"`            // 0 strings of rule values as written; 1 one character of every type name ("@x") spelled \uXXXX; 2 now and then one character of any string of a rule value or of a quoted rule name
 	Seq           []int  `json:"seq,omitempty"`            // stream of small integers for the per-position choices
 }
 
@@ -83,6 +85,9 @@ func (p *printer) sp1() string {
 func (p *printer) name(n string) string {
 	q := p.lay.Quote == 1 || (p.lay.Quote == 2 && p.next(2) == 1)
 	if q {
+		if p.lay.Esc == 2 && p.next(3) == 0 {
+			return escOne(n, p.next(len(n)), p.next(2) == 0) + p.sp0()
+		}
 		return `"` + n + `"` + p.sp0()
 	}
 	if p.lay.Pad == 2 {
@@ -91,11 +96,36 @@ func (p *printer) name(n string) string {
 	return n
 }
 
+// escOne spells the string with one of its ASCII letters, digits or '@' (the k-th, counted cyclically) as a
+// \uXXXX escape - the same JSON string, written differently. Strings without such a character stay as they are.
+func escOne(s string, k int, upper bool) string {
+	var at []int
+	for i := 0; i < len(s); i++ {
+		c := s[i]
+		if c == '@' || c >= '0' && c <= '9' || c >= 'a' && c <= 'z' || c >= 'A' && c <= 'Z' {
+			at = append(at, i)
+		}
+	}
+	if len(at) == 0 {
+		return jsonv.Quote(s)
+	}
+	i := at[k%len(at)]
+	f := `\u%04x`
+	if upper {
+		f = `\u%04X`
+	}
+	head, tail := jsonv.Quote(s[:i]), jsonv.Quote(s[i+1:])
+	return head[:len(head)-1] + fmt.Sprintf(f, s[i]) + tail[1:]
+}
+
 // val prints a rule value on one line; brk is the separator after commas of the top-level list /
 // rule-set when the annotation may span lines.
 func (p *printer) val(v Val, ml bool) string {
 	switch v.K {
 	case "str":
+		if (p.lay.Esc == 1 && strings.HasPrefix(v.Str, "@")) || (p.lay.Esc == 2 && p.next(3) == 0) {
+			return escOne(v.Str, p.next(len(v.Str)+1), p.next(2) == 0)
+		}
 		return jsonv.Quote(v.Str)
 	case "num", "bool", "null", "rule":
 		return v.Lit
